@@ -249,6 +249,9 @@ def _simple(st, stack, env, events):
         return
     if isinstance(st, ast.AugAssign) and isinstance(st.target, ast.Name):
         op = {ast.Add: '+=', ast.Sub: '-='}.get(type(st.op), '?=')
+        for c in ast.walk(st.value):
+            if isinstance(c, ast.Call):
+                _call_event(c, env, events, ln)
         events.append(('set', st.target.id, op, src(inline(st.value, env)), ln))
         env.pop(st.target.id, None)
         return
